@@ -3,6 +3,7 @@ package c05
 
 import (
 	"fmt"
+	"regexp"
 	"slices"
 	"sort"
 	"strings"
@@ -59,6 +60,9 @@ func texts(cs []syntax.Comment) []string {
 	return out
 }
 
+// shellShebang matches a first line that names a shell interpreter.
+var shellShebang = regexp.MustCompile(`^#!\s?/(usr/)?bin/(env\s+)?(sh|bash|mksh|bats|zsh|dash|ksh)(\s|$)`)
+
 func check(c Case) (res vh.Result) {
 	f, perr, pn := sx.Parse(c.Src, c.Lang, true)
 	if pn != nil || perr != nil {
@@ -104,6 +108,12 @@ func check(c Case) (res vh.Result) {
 		var exp []string
 		if len(before) > 0 && before[0].Hash.Line() == 1 && before[0].Hash.Col() == 1 && strings.HasPrefix(before[0].Text, "!") {
 			exp = []string{want[0]}
+			if !shellShebang.MatchString("#"+before[0].Text) && len(got) == 0 {
+				// "#!" followed by something that does not name a shell:
+				// whether that is "a shebang" is not ours to decide
+				res.Classes = append(res.Classes, "minify-nonshell-hashbang")
+				exp = nil
+			}
 		}
 		if fmt.Sprint(got) != fmt.Sprint(exp) {
 			return vh.Fail("Minify kept the wrong comments: got %q, want %q\noutput: %q", got, exp, out)
